@@ -487,11 +487,17 @@ func (s *Session) checkPathPermission(path string, right auth.AccessRight) bool 
 		return true
 	}
 
-	if s.user == nil {
+	user := s.user
+	if s.wsconn != nil {
+		// WebSocket 会话在建立时只验证一次；之后每次按用户名取最新保存的用户，
+		// 否则用户被删除或重建后，会话持有的旧对象仍然按旧权限放行
+		user = auth.Get(s.wsconn.Username())
+	}
+	if user == nil {
 		return false
 	}
 
-	return s.user.ValidatePermission(path, right)
+	return user.ValidatePermission(path, right)
 }
 
 func (s *Session) checkAuth(r *Request) (user *auth.User, err error) {
